@@ -21,7 +21,7 @@ Z == Var("z")
 B(op, l, r) == Bin(op, l, <<r>>)
 
 AbstractNames == <<"x", "y", "z", "f", "g", "p", "q", "r", "fun", "k", "loc", "h", "i", "t", "v", "nope", "pair", "a", "b", "dup", "gcd", "mm", "nn",
-                   "ff", "inner", "outer", "helper", "arr", "j", "grow", "d", "c">>
+                   "ff", "inner", "outer", "helper", "arr", "j", "grow", "d", "c", "got">>
 Naming(off) == LET sc == NMS!Scheme(AbstractNames, off) IN
                [n \in {AbstractNames[i] : i \in 1..Len(AbstractNames)} |-> sc[CHOOSE i \in 1..Len(AbstractNames) : AbstractNames[i] = n]]
 
@@ -140,6 +140,10 @@ CliCorpus(z) == {
   [tree |-> << <<Say(Y)>> >>, inp |-> <<>>],
   [tree |-> << <<SListen(0, ENone), SListen(0, X), Say(X)>> >>, inp |-> <<NL, "x y" \o NL, "unused" \o NL>>],
   [tree |-> << <<>> >>, inp |-> <<>>],
+  \* a prompt, then its answer; an answer read between two outputs; output, a read past the end of input, a run-time error
+  [tree |-> << <<Say(S("name?")), SListen(0, X), Say(B("plus", S("hello "), X))>> >>, inp |-> <<"world" \o NL>>],
+  [tree |-> << <<Say(N(1)), SListen(0, X), Say(N(2)), SListen(0, Y), Say(B("plus", X, Y))>> >>, inp |-> <<"a" \o NL, "b">>],
+  [tree |-> << <<Say(S("ask")), SListen(0, X), Say(X), SListen(0, Y), Say(B("minus", Y, X))>> >>, inp |-> <<"only" \o NL>>],
   [tree |-> << <<SPStr(0, X, "some text  "), Say(X), SMut(0, "cut", X, ENone, S(" ")), Say(X), Say(Idx(X, N(1)))>> >>, inp |-> <<>>]
 }
 CliCases(z) == { LET nm == Naming(0) r == Render(<<>>, nm, cc.tree) fin == RunAll(Init0(cc.tree, cc.inp, -1, 0)) IN
